@@ -265,7 +265,7 @@ fn check_node<L: Language>(lang: &'static LangSig, m: &NM, r: &mut Rng, tabs: &m
         macro_rules! bad {
             ($sig:expr, $($arg:tt)*) => { return Err(($sig.to_string(), format!($($arg)*))) };
         }
-        let all_names: Vec<u32> = (0..40).collect();
+        let all_names: Vec<u32> = (0..100).collect();
         let unslot = |s: Slot| all_names.iter().copied().find(|n| slot(*n) == s);
         let e = m.elems();
         let Some(n) = L::from_syntax(&e) else { bad!("from_syntax-none", "from_syntax rejects its own syntax {e:?}") };
@@ -381,7 +381,7 @@ fn check_node<L: Language>(lang: &'static LangSig, m: &NM, r: &mut Rng, tabs: &m
         }
         // alpha only: rename bound occurrences to names that do not occur free
         let fr = m.free();
-        let alpha = m.rename(&|x, is_free| if is_free { x } else { 20 + x });
+        let alpha = m.rename(&|x, is_free| if is_free { x } else { 50 + x });
         if alpha.free() == fr {
             let Some(n3) = L::from_syntax(&alpha.elems()) else { bad!("from_syntax-none", "alpha-renamed node rejected") };
             if n3.weak_shape().0 != sh {
@@ -477,7 +477,7 @@ fn run_lang<L: Language>(lang: &'static LangSig, rng: &mut Rng, n: usize, exhaus
     }
     for _ in 0..n {
         let o = &lang.ops[rng.below(lang.ops.len())];
-        let alphabet = [2, 3, 4, 6][rng.below(4)];
+        let alphabet = [2, 3, 4, 6, 24, 40][rng.below(6)];
         let m = gen_node(lang, o, rng, alphabet);
         out.inc("nodes_checked");
         let occ = m.occurrences();
